@@ -48,6 +48,9 @@ type request struct {
 	SNI   string `json:"client_id_label"` // label in front of the server name, as typed by the client
 	Name  string `json:"name"`
 	Qtype string `json:"qtype"`
+	// Class is the question class; "" = IN.  Probes such as "version.bind CH
+	// TXT" use class CH.
+	Class string `json:"qclass,omitempty"`
 }
 
 type caseC struct {
@@ -179,6 +182,9 @@ type env struct{ c *lib.Ctx }
 
 func mkCtx(rq request, id uint16, reqID uint64) *proxy.DNSContext {
 	req := &dns.Msg{MsgHdr: dns.MsgHdr{Id: id, RecursionDesired: true}, Question: []dns.Question{{Name: dns.Fqdn(rq.Name), Qtype: dns.StringToType[rq.Qtype], Qclass: dns.ClassINET}}}
+	if rq.Class != "" {
+		req.Question[0].Qclass = dns.StringToClass[rq.Class]
+	}
 	ap := netip.AddrPortFrom(netip.MustParseAddr(rq.Addr), 5353)
 	pctx := &proxy.DNSContext{Req: req, Addr: ap, RequestID: reqID}
 	sni := serverName
@@ -444,6 +450,7 @@ func run(c *lib.Ctx) {
 					for _, qt := range []string{"A", "AAAA", "TXT"} {
 						rq = append(rq, request{Proto: string(p), Addr: "1.2.3.4", Name: n, Qtype: qt})
 					}
+					rq = append(rq, request{Proto: string(p), Addr: "1.2.3.4", Name: n, Qtype: "TXT", Class: "CH"})
 				}
 			}
 			e.runConfig(&cf, rq)
